@@ -378,8 +378,9 @@ pub struct PcInfo {
 }
 
 /// Producer/consumer programs in which every channel has one writer and one reader and one thread
-/// prints.  Heap payloads are always written by a thread that keeps them alive, does not mutate them
-/// and outlives the read (the hypothesis of `C09_chan_copy_valid_partial`; the other shapes are D23).
+/// prints.  In these shapes heap payloads are written by a thread that keeps them alive, does not mutate
+/// them and outlives the read — a discipline that was needed before fix 97d7808 (D23) and is harmless now;
+/// the shapes without it (writer mutates / exits / drops its handle) are c09's snapshot and hand-over streams.
 pub fn gen_pc(rng: &mut Rng) -> (String, PcInfo) {
     let payloads = [Payload::Int, Payload::Bool, Payload::Float, Payload::Str, Payload::Tuple, Payload::Struct, Payload::Array];
     let p = *rng.pick(&payloads);
